@@ -14,8 +14,12 @@
 // to both sides between the last Symlink and the questions (the link to the
 // other directory, its directory renamed, another directory taking the old
 // name, the root renamed, there and back): a link is followed from where it
-// is, not from where it was made. A separate sweep covers chains of 1..70
-// links. Worker subprocesses each own a scratch tree and a cwd.
+// is, not from where it was made. The flag stages (F, F4, F2) replace the
+// alphabet by the open-flag product of space.go: OpenFile+Close with every
+// flag set of {RDONLY,WRONLY,RDWR} x {-,EXCL} x {-,CREATE} x {-,TRUNC} on
+// every query path - whether a final link is followed is decided by the
+// combination of the flags. A separate sweep covers chains of 1..70 links.
+// Worker subprocesses each own a scratch tree and a cwd.
 package main
 
 import (
@@ -484,7 +488,7 @@ func main() {
 			"states": states, "transitions": evalsAll, "traces_validated_against_impl": evalsAll,
 			"evaluations": evalsAll, "distinct_nontrivial": len(classes),
 			"rule": "states = distinct configurations built on both sides (link graphs: every assignment of placement {R, R/d} x target shape to the link names; moved graphs: a graph x one move - a fixed sequence of Rename calls applied to both sides after the last Symlink: the link to the other directory, there and back, the directory R/d renamed, there and back, R/dd taking the old name of R/d, the root R renamed; plus link chains of length 1..70); " +
-				"transitions = evaluations = one call on one query path in one configuration, executed on MemFS and on tmpfs and compared (outcome kind, returned value, and for mutating calls the whole trees); " +
+				"transitions = evaluations = one call on one query path in one configuration, executed on MemFS and on tmpfs and compared (outcome kind, returned value, and for mutating calls the whole trees); in the flag stages (F, F4, F2) the calls are Lstat and OpenFile(path, flags, 0644)+Close for each of the 24 flag sets {O_RDONLY,O_WRONLY,O_RDWR} x {-,O_EXCL} x {-,O_CREATE} x {-,O_TRUNC}, every one treated as mutating (pristine trees, whole trees compared afterwards: what was created or truncated, and where); " +
 				"distinct_nontrivial = distinct (call, kernel outcome, class of the query's final component: file|dir|link>file|link>dir|link>dangling|link>loop|missing; chain-length class for the sweep) classes observed",
 			"samples": samples, "exhaustive": exh,
 			"bound":  fmt.Sprintf("chain sweep N=1..%d (complete); stages %s; completed: {%s}", chainMax, strings.Join(bounds, " || "), strings.Join(done, ",")),
@@ -504,6 +508,7 @@ func main() {
 			"FileInfo.Name is not compared for a query ending in '..'; directory size and link count are not compared; mtimes only for the instant set by Chtimes",
 			"with 2 links the name l3 does not exist: target l3 and query component l3 are the class of 'nope' and are left out of the 2-link stages (likewise l2 in the 1-link stages)",
 			"moved stages (M, M4, N): the moves are Rename calls that the kernel performs without error on every graph (a failure on the kernel side is a harness error, a failure or a different tree on MemFS is reported under kind=setup); the oracle is the kernel's answer on the tmpfs tree that went through the same renames; after the move 'root' queries, cwd and call operands use the new name of R while absolute targets keep the old one; a Sub view as a second route to a link is not covered (no kernel counterpart short of chroot)",
+			"flag stages (F, F4, F2): the oracle for OpenFile(path, flags, 0644) is open(2) on tmpfs given the same flags through os.OpenFile (which adds O_CLOEXEC only), as root, umask 022; the handle is closed at once, so what is compared is the outcome of the open (ok or errno) and the trees afterwards (a file created at the end of a dangling link, a file truncated through a link, nothing touched after a failure); O_APPEND, O_SYNC and the access mode 3 are not in the product; the flag product is crossed with the unmoved graphs only (moves x the 19-call alphabet are the stages M, M4, N)",
 			"random larger trees (last clause of the quantifier) are sampling and are not run",
 		},
 		Violations: rep.NewCount(),
